@@ -52,7 +52,23 @@ class Scripted(np.random.Generator):
         return super().integers(low, high, size=size, dtype=dtype, endpoint=endpoint)
 
 
-def all_outcomes(fn_name, sd, action):
+def build_shared(sd, share):
+    """the real state; with `share`, every obstacle cell holds the *same* MovingObstacle instance (a template stamped into several
+    cells: obstacles carry no state of their own, so the rules apply to each cell all the same)"""
+    s = objs.build_state(sd)
+    if share:
+        from gym_gridverse.geometry import Position
+        one = None
+        for p in M.positions(sd):
+            if M.cell(sd, p) == 'M':
+                if one is None:
+                    one = s.grid[Position(*p)]
+                else:
+                    s.grid[Position(*p)] = one
+    return s
+
+
+def all_outcomes(fn_name, sd, action, share=False):
     """every outcome of the real transition: {canonical next state json}, mode"""
     fn = REG[fn_name]
     outs = set()
@@ -61,7 +77,7 @@ def all_outcomes(fn_name, sd, action):
     def run(script):
         rng = Scripted(script)
         before = rng.bit_generator.state['state']['state']
-        nd = objs.canon_state(transition_with_copy(fn, objs.build_state(sd), objs.action(action), rng=rng))
+        nd = objs.canon_state(transition_with_copy(fn, build_shared(sd, share), objs.action(action), rng=rng))
         raw = rng.bit_generator.state['state']['state'] != before or rng.unscripted
         return nd, rng.radices, raw
 
@@ -83,11 +99,11 @@ def all_outcomes(fn_name, sd, action):
     return outs, 'exhaustive'
 
 
-def seed_outcomes(fn_name, sd, action, base):
+def seed_outcomes(fn_name, sd, action, base, share=False):
     fn = REG[fn_name]
     outs = set()
     for k in range(NSEEDS):
-        nd = objs.canon_state(transition_with_copy(fn, objs.build_state(sd), objs.action(action), rng=make_rng(base * 1000 + k)))
+        nd = objs.canon_state(transition_with_copy(fn, build_shared(sd, share), objs.action(action), rng=make_rng(base * 1000 + k)))
         outs.add(json.dumps(nd, sort_keys=True))
     return outs
 
@@ -106,14 +122,16 @@ def strat_obst(draw, tier):
     for c in cells:
         grid[c // w][c % w] = 'M'
     y, x, hd = draw(gen.agent_pos_s(h, w))
-    return {'state': {'grid': grid, 'agent': [y, x, hd, draw(st.sampled_from(['_', 'K:RED']))]}, 'action': draw(gen.action_s), 'seed': draw(st.integers(0, 10**6))}
+    return {'state': {'grid': grid, 'agent': [y, x, hd, draw(st.sampled_from(['_', 'K:RED']))]}, 'action': draw(gen.action_s), 'seed': draw(st.integers(0, 10**6)),
+            'share': draw(st.integers(0, 3)) == 0}
 
 
 def oracle_obst(case, ctx):
     sd, a = case['state'], case['action']
-    outs, mode = guarded(ctx, 'move_obstacles', all_outcomes, 'move_obstacles', sd, a)
+    share = bool(case.get('share'))
+    outs, mode = guarded(ctx, 'move_obstacles', all_outcomes, 'move_obstacles', sd, a, share)
     if outs is None:
-        outs = guarded(ctx, 'move_obstacles', seed_outcomes, 'move_obstacles', sd, a, case['seed'])
+        outs = guarded(ctx, 'move_obstacles', seed_outcomes, 'move_obstacles', sd, a, case['seed'], share)
         mode = 'seeds:' + mode
     allowed = M.obstacle_outcomes(sd['grid'])
     if allowed is None:
@@ -149,7 +167,7 @@ def oracle_obst(case, ctx):
     nfree = sum(1 for p in obstacles if free[p])
     edge = any(p[0] == 0 or p[1] == 0 for p in obstacles)
     ctx.ev.case(case, nt=(nfree > 0), classes=[f'obstacles={len(obstacles)}', mode] + (['obstacle_on_top_or_left_edge'] if edge else []) +
-                (['boxed_in'] if any(not free[p] for p in obstacles) else []), key=[sd, a])
+                (['boxed_in'] if any(not free[p] for p in obstacles) else []) + (['one_instance_in_several_cells'] if share and len(obstacles) > 1 else []), key=[sd, a, share])
 
 
 # ------------------------------------------------------------------ telepods
@@ -282,7 +300,7 @@ def oracle_custom(case, ctx):
 CHECKS = [
     Check('obstacles', oracle_obst, strategy=strat_obst, examples={'quick': 2500, 'thorough': 6000},
           rule='unwalled grids <= 5x5 with 0-4 obstacles among assorted objects: every outcome must be in the order-agnostic model outcome set; destinations cover every free neighbour',
-          required=['obstacles=1', 'obstacles=3', 'exhaustive', 'obstacle_on_top_or_left_edge', 'boxed_in']),
+          required=['obstacles=1', 'obstacles=3', 'exhaustive', 'obstacle_on_top_or_left_edge', 'boxed_in', 'one_instance_in_several_cells']),
     Check('telepods', oracle_tele, strategy=strat_tele, examples={'quick': 2500, 'thorough': 6000},
           rule='grids <= 5x5 with 0-5 telepods in 1-3 colours, agent on/off a telepod: destinations == same-coloured other telepods (each possible); otherwise no displacement, no exception',
           required=['partners=1', 'partners=2', 'unpaired', 'off_telepod', 'exhaustive']),
